@@ -24,6 +24,15 @@ them through the separate `_derived_element_orderings` list) and under a sort by
 alias / id, or a copy of the item's insertion carrying "hide": true in the transforms'
 "insertions" list - with prune and with items nobody answered.  The oracle (b) is the same:
 shown <=> not hidden and not (prune and empty).
+
+Subtotal insertions flagged hidden: the "hide" key (true / false / absent / a truthy value that
+is not the JSON boolean: 1, "true", 1.0) is generated on the insertions of the variable VIEW
+(references.view.transform.insertions) and on the transforms' "insertions" list alike, with and
+without a transforms "insertions" key that overrides the view (complete copies, subsets, an
+empty list, other insertions).  Oracle (slices and strands, by NAME from the generator's own
+record of what it flagged): a subtotal of the list in force is shown iff it is not flagged
+"hide": true (and the opposing dimension does not prune everything away); the model is fed the
+flag of every insertion of both lists (`i_hide` of Model/Collator.v).
 """
 import copy
 import json
@@ -208,6 +217,34 @@ def add_mr_insertions(rng, v, n_derived):
     v.derived_idxs = ks
 
 
+HIDE_OTHER = [1, "true", 1.0, "yes"]
+
+
+def flag_insertion_hides(rng, ins, p_true):
+    """put a "hide" key on the subtotal insertion dicts of `ins` (in place): true with
+    probability p_true, else false (12%), a truthy non-boolean (10%) or no key at all"""
+    for d in ins:
+        if not isinstance(d, dict):
+            continue
+        r = rng.random()
+        if r < p_true:
+            d["hide"] = True
+        elif r < p_true + 0.12:
+            d["hide"] = False
+        elif r < p_true + 0.22:
+            d["hide"] = rng.choice(HIDE_OTHER)
+        else:
+            d.pop("hide", None)
+    return ins
+
+
+def hide_kind(d):
+    if "hide" not in d:
+        return "absent"
+    h = d["hide"]
+    return "true" if h is True else "false" if h is False else "truthy-non-bool" if h else "falsy-non-bool"
+
+
 def dim_transforms(rng, v, role, truth):
     """transforms dict for the dimension v contributes in `role`; records what it hides"""
     t = {}
@@ -280,8 +317,31 @@ def dim_transforms(rng, v, role, truth):
                 t.setdefault("elements", {})[str(valid[k])] = {"hide": rng.choice([False, None, 1, "true"])}
         if rng.random() < 0.6:
             v.view_insertions = ou.random_insertion_list(rng, v, [valid[k] for k in hidden], max_n=3)
-        if rng.random() < 0.2:
-            t["insertions"] = ou.derive_transform_insertions(rng, v.view_insertions or [], v)
+            if rng.random() < 0.6:
+                # hide flags on the insertions of the variable VIEW
+                flag_insertion_hides(rng, v.view_insertions, rng.choice([0.25, 0.5, 1.0]))
+        if rng.random() < 0.3:
+            # a transforms "insertions" key is in force INSTEAD of the view (flagged or not)
+            r2 = rng.random()
+            if r2 < 0.12:
+                t["insertions"] = []
+            elif r2 < 0.3 and v.view_insertions:
+                # complete copies of the view's insertions with flags of their own
+                t["insertions"] = flag_insertion_hides(
+                    rng, copy.deepcopy(v.view_insertions), rng.choice([0.0, 0.3, 0.6]))
+            else:
+                t["insertions"] = ou.derive_transform_insertions(rng, v.view_insertions or [], v)
+                if rng.random() < 0.4:
+                    flag_insertion_hides(rng, t["insertions"], 0.35)
+        truth["insertions_from"] = "transforms" if "insertions" in t else "view"
+        # the generator's own record: which insertions of the list in force it flagged hidden and
+        # which subtotals (by name) the property says are shown
+        src = t["insertions"] if "insertions" in t else (v.view_insertions or [])
+        truth["subtotals_flagged"] = [d["name"] for d in src if d.get("hide") is True]
+        truth["subtotals_expected"] = [d["name"] for d in src if d.get("hide") is not True
+                                       and any(x in valid for x in ou.ins_terms(d))]
+        truth["view_hide_kinds"] = [hide_kind(d) for d in (v.view_insertions or [])]
+        truth["tins_hide_kinds"] = [hide_kind(d) for d in t["insertions"]] if "insertions" in t else None
         r = rng.random()
         if r < 0.25:
             t["order"] = {"type": "explicit", "element_ids": ou.random_explicit_ids(rng, valid)}
@@ -423,6 +483,7 @@ def oracle(case, prep):
             out.append((axis + ".visible_iff",
                         {"shown": got, "expected": want, "hidden": tr["hidden"],
                          "prune": tr["prune"], "empty_unweighted": emp[k]}))
+        all_empty = False
         if not strand:
             opp = 1 - k
             all_empty = case["truth"][opp]["prune"] and len(emp[opp]) == ms[opp].n
@@ -432,6 +493,20 @@ def oracle(case, prep):
             if subs != wsub:
                 out.append((axis + ".subtotal_pruning",
                             {"shown": subs, "expected": wsub, "opposing_all_empty": all_empty}))
+        if "subtotals_expected" in tr and not ms[k].array:
+            # by NAME, from the generator's record: shown iff not flagged "hide": true (and not
+            # pruned away by the opposing dimension); strands never prune subtotals
+            lab = obs[axis + "_labels"]
+            if lab[0] != "ok" or len(lab[1]) != len(o[1]):
+                out.append((axis + ".subtotal_hidden_iff", {"impl_labels": lab, "order": o[1]}))
+            else:
+                shown = sorted(l for l, z in zip(lab[1], o[1]) if z < 0)
+                want = [] if all_empty else sorted(tr["subtotals_expected"])
+                if shown != want:
+                    out.append((axis + ".subtotal_hidden_iff",
+                                {"shown": shown, "expected": want, "flagged_hidden": tr["subtotals_flagged"],
+                                 "insertions_from": tr.get("insertions_from"),
+                                 "opposing_all_empty": all_empty}))
     return out
 
 
@@ -483,7 +558,8 @@ def run_cases(rep, cases):
         pos += len(p["terms"])
         anyprune = any(t["prune"] for t in case["truth"])
         emp = py_empties(case["u"], case["strand"], case["mrxmr"])
-        nontriv = anyprune and any(emp) or any(t["hidden"] for t in case["truth"])
+        nontriv = anyprune and any(emp) or any(t["hidden"] for t in case["truth"]) or \
+            any(t.get("subtotals_flagged") for t in case["truth"])
         rep.count_case(_replayable(case), nontriv)
         rep.dist("strand" if case["strand"] else "slice")
         rep.dist("kinds:" + "x".join(case["kinds"]))
@@ -498,6 +574,30 @@ def run_cases(rep, cases):
             rep.dist("all-opposing-empty(subtotals pruned)")
         for m in p["models"]:
             rep.dist("order:" + str(m.order_dict.get("type", "payload")))
+        sk = "strand" if case["strand"] else "slice"
+        for tr in case["truth"]:
+            if "insertions_from" not in tr:
+                continue
+            for hk in tr.get("view_hide_kinds") or []:
+                rep.dist("view-insertion:hide=" + hk)
+            for hk in tr.get("tins_hide_kinds") or []:
+                rep.dist("transforms-insertion:hide=" + hk)
+            vflag = "true" in (tr.get("view_hide_kinds") or [])
+            if tr["insertions_from"] == "view":
+                if vflag:
+                    rep.dist("view-insertion-hidden,no-transforms-insertions-key")
+                    rep.dist("view-insertion-hidden,no-transforms-insertions-key:" + sk)
+                    if len(tr["subtotals_flagged"]) < len(tr.get("view_hide_kinds") or []):
+                        rep.dist("view:some-hidden-some-shown")
+            else:
+                rep.dist("transforms-insertions-key-overrides-view" +
+                         (":view-had-hidden" if vflag else ""))
+                if tr.get("tins_hide_kinds") == []:
+                    rep.dist("transforms-insertions-key:empty-list")
+                if tr["subtotals_flagged"]:
+                    rep.dist("transforms-insertion-hidden:" + sk)
+            if tr["subtotals_flagged"]:
+                rep.dist("subtotal-flagged-hidden(list in force)")
         for kk, (tr, m) in enumerate(zip(case["truth"], p["models"])):
             der = tr.get("derived")
             if der is None:
@@ -550,7 +650,11 @@ def run(tier, seed):
         "categories, categories whose respondents all have weight 0, MR items nobody answered / "
         "answered but never selected / selected only by weightless respondents; prune on 65% of the "
         "dimensions (plus non-True spellings), hides by int / str / alias keys (plus hide: False/None/1), "
-        "insertions, explicit and label-sorted orders with fixed lists; every MR dimension carries 0, 1 "
+        "insertions (60% of the categorical dimensions carry VIEW insertions, 60% of those with hide keys: "
+        "true 25/50/100%, false 12%, truthy non-boolean 10%, absent; 30% of the categorical dimensions have a "
+        "transforms 'insertions' key in force instead - empty, flagged copies of the view's, subsets / "
+        "shuffles / other insertions, 12-35% flagged; see the view-insertion:* / transforms-insertion:* "
+        "keys), explicit and label-sorted orders with fixed lists; every MR dimension carries 0, 1 "
         "or 2 DERIVED items (any_selected insertions of the view: derived flag, anchor top / bottom / "
         "before / after an item / stale / absent, value.id = insertion name), shown in payload order, "
         "under an explicit order (50%; ids or aliases) and under a label sort (20%), hidden (35% each) "
@@ -568,7 +672,10 @@ def run(tier, seed):
         "(dimension.py Elements._hidden_transforms) is not modelled: the model is fed the hidden set the "
         "implementation reports, only the ORACLE (generator's record of the flagged insertions) decides it; "
         "conflicting instructions (insertion flagged hidden AND an element transform hide: false on the same "
-        "item) and truthy non-boolean flags are not generated",
+        "item) and truthy non-boolean flags ON MR INSERTIONS are not generated",
+        "a subtotal insertion is 'flagged hidden' when its \"hide\" value is the JSON boolean true (view and "
+        "transforms insertions alike); false, an absent key and truthy non-booleans (1, \"true\", 1.0, \"yes\") "
+        "are not a flag - the same reading as for element hides",
     ]
     return rep.finish("proof", ob, trusted_base=core.TRUSTED_BASE_COMMON + [
         "Model/OrderPruning.v and Model/Collator.v are hand-written; tied to collator.py, dimension.py and the "
